@@ -59,6 +59,37 @@ def gen_direct(rng, long=False):
     return dict(mode="direct", cfg=dict(fps=fps, bucket=bucket, minlen=minlen, k=k), steps=steps)
 
 
+def gen_refill_probe(rng):
+    """drain the bucket just before a multiple of min-refill (= K * min-length frames after construction), then ask
+    for frames just after it: only the refill earned in between may be stored, however the refill is batched"""
+    fps = rng.choice([1, 2, 3, 9])
+    bucket = rng.choice([1, 2, 3])
+    minlen = rng.choice([2, 3, 4])
+    k = rng.choice([2, 7, 50, 111])
+    cap, ml = bucket * fps, minlen * fps
+    period = k * ml
+    steps = []
+    j = rng.randint(1, 4)
+    before = rng.choice([1, 2, k - 1 if k > 2 else 1])
+    steps.append(dict(a="adv", d=j * period - before))          # bucket is full (long idle)
+    steps.append(dict(a="start", d=0, ok=True))
+    for _ in range(cap + 3):                                     # drain it; the throttle cuts the file
+        steps.append(dict(a="w", d=0, ok=True))
+    steps.append(dict(a="stop", d=0))
+    steps.append(dict(a="adv", d=before + rng.choice([0, 1])))   # cross the refill instant
+    steps.append(dict(a="start", d=0, ok=True))
+    for _ in range(ml + cap + 3):
+        steps.append(dict(a="w", d=0, ok=True))
+    steps.append(dict(a="stop", d=0))
+    # and once more one period later, writing at frame pace
+    steps.append(dict(a="adv", d=period - 2))
+    steps.append(dict(a="start", d=0, ok=True))
+    for _ in range(2 * ml + cap):
+        steps.append(dict(a="w", d=rng.choice([0, 1]), ok=True))
+    steps.append(dict(a="stop", d=0))
+    return dict(mode="direct", cfg=dict(fps=fps, bucket=bucket, minlen=minlen, k=k), steps=steps)
+
+
 def gen_proc(rng):
     fps = rng.choice([1, 2, 3])
     preview, trig = rng.choice([0, 1, 2]), rng.choice([0, 1, 2])
@@ -135,6 +166,9 @@ def run(ctx):
     nrand = 150 if tier == "quick" else 3000
     for i in range(nrand):
         scripts.append(dict(gen_direct(rng, long=(i % 12 == 0)), origin="random"))
+    nprobe = 60 if tier == "quick" else 800
+    for i in range(nprobe):
+        scripts.append(dict(gen_refill_probe(rng), origin="refill-probe"))
     nproc = 60 if tier == "quick" else 1200
     for i in range(nproc):
         scripts.append(dict(gen_proc(rng), origin="proc"))
